@@ -30,11 +30,15 @@ CFG = {
         "Swat4.C12.ghost_faithful_finish",
         "Swat4.C12.conservation_final",
         "Swat4.C12.timing_final",
+        "Swat4.C12.batch_sorted_inv",
+        "Swat4.C12.batch_sorted_all",
+        "Swat4.C12.batch_sorted_all_final",
         "Swat4.C12.batch_sorted_seq",
-        "Swat4.C12.batch_sorted_conc",
+        "Swat4.C12.fetch_sorted_conc",
+        "Swat4.C12.batch_is_fetch_order",
         "Swat4.C12.witness_init",
         "Swat4.C12.witness_pops",
-        "Swat4.C12.batch_unsorted_witness",
+        "Swat4.C12.fetch_order_unsorted_witness",
         "Swat4.C12.delivered_if_live",
         "Swat4.C12.delivered_if_live_final",
         "Swat4.C12.handed_at_most_one",
@@ -49,12 +53,13 @@ CFG = {
             "storage command (ZRANGEBYSCORE / MULTI-EXEC granularity) with clock ticks and a consumer death before/after a command; every probe "
             "carries a unique port (identity), ready times are pairwise distinct (Redis orders equal scores by member text); compared: command "
             "trace, returned batches and expired counts, raw probes:* keys; oracle on the implementation's outputs: conservation of probes, "
-            "at-most-once, batch size, not-early/not-late, never-queued, batch order (violations classified: late-past-ready = known finding), "
-            "keyspace consistency",
+            "at-most-once, batch size, not-early/not-late, never-queued, batch order (every returned batch sorted by ready time; a violation is "
+            "classified late-past-ready = regression of PopMany's final sort, or batch-unsorted), keyspace consistency",
     "assumptions": [
         "a client reads the clock when it arrives at a storage command (the scheduler only moves the clock while every client is blocked at a command)",
         "probe identity = unique port number chosen by the generator (the repository's UUIDs are renamed canonically in dumps)",
-        "equal ready times are ordered by UUID text in Redis: generated ready times are pairwise distinct",
+        "equal ready times are ordered by UUID text in Redis: generated ready times are pairwise distinct (the model orders equal scores "
+        "within a round by id; PopMany's final sort is stable, so ties keep fetch order: round by round, Redis order within a round)",
     ],
     "trusted_base": COMMON_TRUSTED,
     "manifest": {
@@ -73,13 +78,21 @@ CFG = {
                 "payload at every later pc, and if the consumer is not dead and has finished, the entry has been handed to it and to nobody else; "
                 "stated on records/ids because batches are payload lists and payloads may repeat), handed_at_most_one; the hypothesis 'no consumer "
                 "dies while holding it' is necessary: lost_if_dies / lost_if_dies_done (consumer dies right after its pop batch: the probe is in the "
-                "pop log and in nobody's returned batch). Batch order: the unconditional statement is false "
-                "(batch_unsorted_witness: a checked 4-event schedule returning ready times [50, 10]); proved partials batch_sorted_seq (no enqueue "
-                "executes during the call) and batch_sorted_conc (every enqueue during the call has ready >= clock when it executes, monotone "
-                "clock). The correspondence run decides that the model is the code and evaluates the same predicates on the implementation's "
-                "outputs; the unordered-batch case is the recorded known finding (late-past-ready).",
-        "level_note": "Proved for the command-level model of enqueue/PopMany under arbitrary interleaving; batch order only under the stated side "
-                      "conditions (the full statement is refuted by a witness, known finding). Ghost logs live in a wrapper system proved to erase "
+                "pop log and in nobody's returned batch). Batch order: batch_sorted_all / batch_sorted_all_final / batch_sorted_inv - "
+                "for every event list (all interleavings of any number of consumers and producers, ticks of either sign, deaths), from every "
+                "admissible initial state (batch_sorted_inv: from every ghost state satisfying the system invariant GInv), every batch a finished "
+                "PopMany returned is the payload list of a rearrangement of the entries that consumer took out and did not drop as expired, in "
+                "which ready times (the ones the entries were enqueued with = the scores they were popped with) are non-decreasing; no side "
+                "condition on producers or on the clock. The model mirrors the repaired code: ZRANGEBYSCORE WITHSCORES, every item keeps its "
+                "score through the rounds, the items of all rounds are stably sorted by score before the call returns (batch_is_log: what is "
+                "returned is that sort of the log's batch records, a permutation of the fetch order). Kept about the fetch order (the order of "
+                "the rounds, which is what the call returned before the repair): fetch_order_unsorted_witness (a checked 4-event schedule "
+                "fetching ready times [50, 10]; the call now returns [10, 50]), batch_sorted_seq (no enqueue executes during the call) and "
+                "fetch_sorted_conc (every enqueue during the call has ready >= clock when it executes, monotone clock): the fetch order is "
+                "sorted, and then the returned batch is the fetch order itself (batch_is_fetch_order). The correspondence run decides that the "
+                "model is the code and evaluates the same predicates on the implementation's outputs, batch order included.",
+        "level_note": "Proved for the command-level model of enqueue/PopMany under arbitrary interleaving, batch order included (full strength). "
+                      "Ghost logs live in a wrapper system proved to erase "
                       "to the model; ties between equal scores are ordered by id in the model (by UUID text in Redis). Trusted: Lean kernel; the "
                       "command-level queue model validated by the differential run; the oracle in the driver.",
         "technique": "Lean 4 proof (atomic-batch lemmas, C10 invariant) + exhaustive-style interleaving correspondence with an independent conservation oracle",
